@@ -4,6 +4,7 @@ import Libvna.Model.Scalar
 import Libvna.Gen.Conv2Table
 import Libvna.Driver.VDataDrv
 import Libvna.Model.ConvN
+import Libvna.Driver.NumDrv
 open Libvna
 
 structure DState where
@@ -39,10 +40,38 @@ def stepConvN (args : List String) : String :=
     | _, _ => "bad-args"
   | _ => "bad-args"
 
+def stepNum (args : List String) : String :=
+  match args with
+  | "mldivide" :: ms :: ns :: rest =>
+    match ms.toNat?, ns.toNat?, parseCFs rest with
+    | some m, some n, some v =>
+      if v.length != m * m + m * n then "bad-args" else
+      let (x, d) := Libvna.LA.mldivide CF.abs (v.take (m * m)).toArray (v.drop (m * m)).toArray m n
+      "ok " ++ cfToHex d ++ " X " ++ joinHex x.toList
+    | _, _, _ => "bad-args"
+  | "mrdivide" :: ms :: ns :: rest =>
+    match ms.toNat?, ns.toNat?, parseCFs rest with
+    | some m, some n, some v =>
+      if v.length != n * n + m * n then "bad-args" else
+      let (x, d) := Libvna.LA.mrdivide CF.abs (v.drop (n * n)).toArray (v.take (n * n)).toArray m n
+      "ok " ++ cfToHex d ++ " X " ++ joinHex x.toList
+    | _, _, _ => "bad-args"
+  | "minverse" :: ns :: rest =>
+    match ns.toNat?, parseCFs rest with
+    | some n, some v =>
+      if v.length != n * n then "bad-args" else
+      let (x, d) := Libvna.LA.minverse CF.abs v.toArray n
+      "ok " ++ cfToHex d ++ " X " ++ joinHex x.toList
+    | _, _ => "bad-args"
+  | "rfi" :: rest => Libvna.Drv.stepRfi rest
+  | "spline" :: rest => Libvna.Drv.stepSpline rest
+  | _ => "unmodelled"
+
 def step (st : DState) (line : String) : DState × String :=
   match line.trimAscii.toString.splitOn " " with
   | "conv" :: rest => (st, stepConv rest)
   | "convn" :: rest => (st, stepConvN rest)
+  | "num" :: rest => (st, stepNum rest)
   | "vd" :: rest => let (v, o) := Libvna.Drv.stepVd st.vd rest; ({ st with vd := v }, o)
   | _ => (st, "bad-op")
 
